@@ -190,8 +190,9 @@ CHECKS = {
    text="Theorems (closed): C19_disjoint_noninterference / C19_results_as_alone - in EVERY interleaving of atomic actions, threads with pairwise disjoint footprints (except mutex-protected "
         "locations used only inside critical sections that reset them first) compute exactly what they compute alone; C19_footprint_disjoint - the hypothesis for vore's source AS IT IS NOW: "
         "Generated/Footprint.v is regenerated from /repo by the scanner on every run (package-level variables, readers/writers reachable from Compile/CompileFile/Run/RunFiles outside a mutex, "
-        "engine writes through bytecode/ast values) and the theorem is re-checked against it. Search for a failing schedule: the -race build of the harness (goroutines compiling with and "
-        "without regex groups and running shared/private programs), results compared with sequential ones.",
+        "engine writes through bytecode/ast values, calls and assignments that reset process-wide state of a library package such as math/rand's global source, from which the generator draws loop ids) "
+        "and the theorem is re-checked against it. Search for a failing schedule: the -race build of the harness (goroutines compiling - through the internal pipeline and through libvore.Compile in turn - with and "
+        "without regex groups and nested loops, and running shared/private programs), bytecode and results compared with sequential ones.",
    note="Partial by nature: the Go memory model and scheduler are not in the model, the scanner is a trusted syntactic translator, and a race is only exhibited dynamically. The compiled property "
         "file is coq/Separate/C19.v (kept out of the main build because it depends on the generated file). Repaired: b6af011 (capture_group_number under a mutex).",
    technique="Coq proof (noninterference over all interleavings) with the hypothesis regenerated from the source by a translator on every run + race-detector harness",
